@@ -213,7 +213,10 @@ class _Acc:
                 s = canon(case)
                 self.samples.append(json.loads(s) if len(s) < 3000 else s[:3000] + "...")
         for lab in res.labels:
-            self.labels[lab] = self.labels.get(lab, 0) + 1
+            if isinstance(lab, (tuple, list)):  # (name, count): a case that covers many sub-evaluations
+                self.labels[lab[0]] = self.labels.get(lab[0], 0) + int(lab[1])
+            else:
+                self.labels[lab] = self.labels.get(lab, 0) + 1
         for sig, msg in res.violations:
             v = self.viol.get(sig)
             size = len(canon(case))
@@ -442,8 +445,13 @@ def run_check(mod, tier):
     outdir = os.path.join(VERIF, "out", mod.ID)
     lines = []
     max_evals = int(budget.get("shrink_evals", 200 if tier == "quick" else 3000))
-    for sig in sorted(new_viol):
+    max_report = int(budget.get("max_report", 25))
+    for n_sig, sig in enumerate(sorted(new_viol)):
         v = new_viol[sig]
+        if n_sig >= max_report:
+            # many signatures: usually one root cause seen from many sites; keep the output bounded
+            lines.append((sig, lines[0][1], v["message"]))
+            continue
         try:
             small, used = shrink(mod, v["case"], sig, max_evals)
         except Exception:  # noqa  shrinking is best effort
